@@ -430,6 +430,10 @@ def make_param(ctx, name, ty):
         return [("bytes", ("bytes", name))]
     if isinstance(ty, tuple) and ty and ty[0] in ("pydata", "writer"):
         return [(ty[0], (ty[0], ty[1] if len(ty) > 1 else name))]
+    if ty == "pickle-state":
+        return [("state=(parts,)", ("state", "tuple")), ("state=(None,{'_val':parts})", ("state", "dict"))]
+    if ty == "fresh-url":
+        return [("fresh URL", ("freshurl", name))]
     if isinstance(ty, tuple) and ty[0] == "const":
         return [(repr(c), ("const", c)) for c in ty[1]]
     raise ValueError(ty)
@@ -462,6 +466,15 @@ def instantiate_param(ex, ctx, desc):
                       fresh=False)
     if kind == "pydata":
         return ("pydata-ref", name)
+    if kind == "state":
+        parts = VTuple([V.sym_str(ctx, f"st_{p}") for p in URL_PARTS])
+        if name == "tuple":
+            return VTuple([parts])
+        return VTuple([NONE, V.VDict({"_val": parts}, fresh=False)])
+    if kind == "freshurl":
+        fields = {"_" + p: lit("") for p in URL_PARTS}
+        fields["_cache"] = V.VDict({}, fresh=True)
+        return V.VObj("URL", fields, fresh=True)
     if kind == "url":
         fields = {"_" + p: V.sym_str(ctx, f"{name}_{p}") for p in URL_PARTS}
         obj = V.VObj("URL", fields, fresh=False)
